@@ -155,6 +155,17 @@ CLAIMED = {
         technique="Rocq proof (universal statement over regenerated finite callback tables) + Python-ast translator + in-Coq differential correspondence on real handlers",
         design="5/C08",
     ),
+    "C09": dict(
+        text="Theorems (Props/C09.v) about the endpoint model (receive path feeding the session handling): for EVERY connected state and whatever bytes have arrived, ending the "
+             "connection leaves NOT CONNECTED, an empty receive buffer and a cleared closing flag (C09_close_cleans); from every such state the next connection parses the "
+             "Select.req as its first message and answers it, ending SELECTED (C09_reusable_after_close: no stale bytes); a valid stream cut at ANY byte offset delivers exactly "
+             "the messages that arrived completely, nothing partial, nothing dropped (C09_prefix_delivers_whole, by induction over the stream). Tied to the code by cutting "
+             "streams at every offset on the in-memory rig and over real loopback sockets, each library call under a deadline so that a hang is a violation.",
+        note=NOTE_COMMON + " Partial: that the disconnect handling and disable() RETURN is runtime behaviour no Gallina model exhibits - it is observed (deadlines, live threads, send queue), "
+             "not proven; the theorems cover the state the endpoint is left in. TcpClientConnection (active mode) is exercised by C20 only.",
+        technique="Rocq proof (invariant + induction over streams on the composed receive/session model) + in-Coq differential correspondence over all cut offsets + loopback-socket runs under deadlines",
+        design="5/C09",
+    ),
     "C11": dict(
         text="Theorems (Props/C11.v): for each of the 8 configured defaults and EVERY history of operator switches, S1F15/S1F17 and event enable/disable, the "
              "model's control state is E30's, what it sends (S1F1 probe, S1F16/S1F18 with the code, collection events when enabled) is among what E30 admits and "
